@@ -11,7 +11,7 @@ PROPERTY = 'C10'
 LEVEL = 'exploration'
 RULE = ('compute_combined_features on every frame of 2 feature columns x 2 rows (quick) / x 3 rows (thorough) over the cell alphabet {"", 1, 11, 111, a, ab, b, ü, " "} '
         '(every prefix/suffix aliasing pattern), on 3- and 4-column frames built from every pair of different rows that alias under plain concatenation, orders 2..4, '
-        'caps {1,2,large}; an int-typed family; oracle: equality pattern of each " AND " column == equality pattern of the value tuples, originals untouched, '
+        'caps {1,2,large}; an int-typed family; a long-value family (65-character values differing only in their last character); oracle: equality pattern of each " AND " column == equality pattern of the value tuples, originals untouched, '
         'count = min(cap, C(#features,k)), names in column order; a scoring family compares the interaction score with that of an explicit tuple column; one 300 000-tuple column (collision count of a hash narrower than 64 bits); sequence differential over <= 3 successive batches (same names and row count, other content). '
         'distinct_nontrivial = frames in which at least two rows differ in some constituent')
 ASSUMPTIONS = ['64-bit hash collisions are outside the alphabet (excluded by the statement)']
@@ -199,6 +199,24 @@ def _birthday(_):
     return st
 
 
+LONG = ['http://example.org/some/very/long/path/with/a/shared/prefix?id=' + t for t in ('1', '2', '10', '01')] + ['x' * 64 + 'a', 'x' * 64 + 'b', 'x' * 65]
+
+
+def _long_values(_):
+    """values that are long and differ only near their end (URLs, JSON dumps)"""
+    st = Stats()
+    cols = ['x', 'y', 'label']
+    for a, b in itertools.product(LONG, repeat=2):
+        for c, d in ((LONG[0], LONG[1]), (LONG[4], LONG[5]), ('s', LONG[6])):
+            rows = [[a, c, '0'], [b, d, '1'], [a, d, '0'], [b, c, '1']]
+            st.count('evaluations')
+            st.count('nontrivial')
+            st.count('long_value_cases')
+            for sig, msg in judge(cols, rows, 2, 2 ** 15):
+                st.violation({'columns': cols, 'rows': rows, 'order': 2, 'cap': 2 ** 15}, msg[:600], dict(sig, long=True))
+    return st
+
+
 SEQ_ROWS = [
     [['p', 's', '0'], ['q', 't', '1'], ['p', 't', '0']],
     [['q', 's', '1'], ['p', 's', '0'], ['q', 's', '1']],          # same names, same row count, other content
@@ -234,6 +252,8 @@ def _dispatch(item):
     k, job = item
     if k == 'seqdiff':
         return _seqdiff(job)
+    if k == 'long':
+        return _long_values(job)
     if k == 'birthday':
         return _birthday(job)
     return {'two': _two_col, 'multi': _multi_col, 'ints': _ints, 'scoring': _scoring}[k](job)
@@ -251,7 +271,7 @@ def run(ctx):
         lim = np_ if (ctx.thorough or k == 3) else 600
         jobs += [('multi', (k, lo, hi)) for lo, hi in shards(lim, 48)]
     jobs += [('ints', None), ('scoring', None), ('birthday', None)]
-    jobs += [('seqdiff', (2, 2 ** 15)), ('seqdiff', (3, 2 ** 15))]
+    jobs += [('seqdiff', (2, 2 ** 15)), ('seqdiff', (3, 2 ** 15)), ('long', None)]
     for st in pmap(_dispatch, jobs):
         ctx.stats.merge(st)
     ctx.extra['rows_two_column_family'] = nrows
